@@ -312,3 +312,35 @@ def run_atheris(ctx: Ctx, spec: dict, target: str, fn, runs: int) -> None:
         import shutil
 
         shutil.rmtree(workdir, ignore_errors=True)
+
+
+_PRELOADED = False
+
+
+def preload() -> None:
+    """Import every schemathesis and vfw module up front.
+
+    Hypothesis >= 6.131 feeds string / number constants found in *local* modules (anything outside site-packages - here the
+    source checkout of schemathesis and this harness) into generation, and re-scans whenever ``sys.modules`` grows. With
+    lazy imports, what a seeded draw produces would depend on which modules happen to be loaded at that moment (so the first
+    engine run of a process differs from the second, and a replay in a fresh process differs from the shard that found
+    the input). Loading everything first keeps the pool - and with it every seeded draw - a function of the seed alone.
+    """
+    global _PRELOADED
+    if _PRELOADED:
+        return
+    _PRELOADED = True
+    import importlib
+    import pkgutil
+
+    import schemathesis
+    import vfw
+
+    for pkg in (schemathesis, vfw):
+        for info in pkgutil.walk_packages(pkg.__path__, pkg.__name__ + "."):
+            if info.name.startswith(("schemathesis.pytest", "vfw.fuzz", "vfw.run", "vfw.shard")):
+                continue
+            try:
+                importlib.import_module(info.name)
+            except Exception:  # noqa: BLE001 - optional dependency missing
+                pass
